@@ -52,7 +52,21 @@ RULE = ('strata: X = exhaustive layering of 2 names over 5 layer slots (register
         'layerings carry the ROUTE by which policy_file and policy_dirs are configured as a dimension: set_override with a list (as '
         'everywhere else), conf.set_default, or a real configuration file given as --config-file that holds [oslo_policy] with '
         'policy_file = ... and one policy_dirs = ... line per directory (absolute names, or relative ones that resolve against the '
-        'directory of the configuration file); the expected layering does not depend on the route.')
+        'directory of the configuration file); the expected layering does not depend on the route. '
+        'P = one world (registered defaults, main file, policy directories: none configured / only a missing one / existing but '
+        'empty / holding files / holding files and links - enumerated) over which two or three enforcers are built one after the '
+        'other in the same process, each on the same ConfigOpts or on one of its own naming the same paths (any route), each '
+        'deciding every name / loading / loading with force / staying idle before the next is built: every enforcer - the earlier '
+        'ones when built, the last one, the earlier ones again afterwards and after every step of a history - must decide by the '
+        'same documented fold of the files as they are now. '
+        'L = layerings whose policy directories hold entries that are symbolic links to regular files kept elsewhere (relative or '
+        'absolute link text; target outside the configured directories, in a dot-named or plain sub-directory of one, reached '
+        'through a linked directory as in a mounted ConfigMap, or through a second link; target names drawn so that they sort '
+        'differently from the entry names): a linked entry that is not a dot-file is a file of the directory and takes the place '
+        'its OWN name gives it; dot-named links are ignored; histories also switch a link to another file. Entries that are links '
+        'to directories are present too: whether those count as sub-directories is left open by the statement, so the files below '
+        'them define only a name of their own and either outcome is accepted (counted as unconstrained); dangling links are not '
+        'generated (the unchanged library cannot stat them).')
 ASSUMPTIONS = ['lexicographic order = Python sorted() of the file names (code-point order)',
                'oslo_policy.opts._options is swapped for a pristine deep copy around cases that call set_defaults',
                'single-role credentials distinguish the layers because each layer uses its own role',
@@ -60,7 +74,11 @@ ASSUMPTIONS = ['lexicographic order = Python sorted() of the file names (code-po
                'layer and the default decide alike, which is all the statement asks of it (strata R / RX)',
                'a configuration file holds a multi-valued option as one line per value (oslo.config accumulates repeated keys in '
                'file order); the configuration file lives in the sandbox tree and no default configuration files / directories of '
-               'the host are read']
+               'the host are read',
+               'a symbolic link to a regular file, named without a leading dot, inside a configured directory is one of the '
+               'files of that directory (the statement excludes only dot-files and sub-directories); links always resolve',
+               'enforcers of one process over the same world are independent observers of the statement: none is exempt '
+               'because another one has read the files before']
 LEVEL_TEXT = ('The file-selection table and the small layering space are enumerated completely; larger layerings '
               '(sort order, dot-files, sub-directories, missing directories, formats) are sampled. Finite parts exhaustive, '
               'the rest structured sampling.')
@@ -84,7 +102,16 @@ MIN = {'evaluations': 600, 'decisions': 5000, 'allow_decisions': 300, 'file_sele
        'restated_default_decisions': 4000,
        'layerings_configured_by_set_override': 1500, 'layerings_configured_by_set_default': 100,
        'layerings_configured_by_config_file': 100, 'layerings_config_file_two_or_more_policy_dirs_lines': 100,
-       'layerings_config_file_relative_names': 30, 'layerings_config_file_with_missing_directory_line': 40}
+       'layerings_config_file_relative_names': 30, 'layerings_config_file_with_missing_directory_line': 40,
+       'worlds_with_several_enforcers': 60, 'worlds_later_enforcer_main_file_no_existing_directory': 12,
+       'worlds_later_enforcer_main_file_and_directories': 35, 'worlds_enforcers_sharing_one_conf': 45,
+       'worlds_enforcers_with_confs_of_their_own': 45, 'worlds_earlier_enforcer_idle_so_far': 20,
+       'worlds_earlier_enforcer_has_loaded': 50, 'worlds_three_enforcers': 30, 'worlds_several_enforcers_then_history': 18,
+       'decisions_by_other_enforcers_of_the_process': 6000,
+       'linked_entry_layerings': 55, 'layerings_entry_is_absolute_link_to_file': 45, 'layerings_entry_is_relative_link_to_file': 45,
+       'layerings_entry_links_through_another_link': 35, 'layerings_entry_is_link_to_directory': 40,
+       'layerings_linked_file_is_last_definer_of_a_shadowed_name': 35,
+       'layerings_order_by_link_name_differs_from_order_by_target_name': 25, 'histories_with_link_switched_to_another_file': 15}
 ANCHORS = ['oslo_policy.policy:Enforcer.load_rules', 'oslo_policy.policy:Enforcer._walk_through_policy_directory',
            'oslo_policy.policy:pick_default_policy_file', 'oslo_policy.policy:parse_file_contents',
            'oslo_policy.policy:Enforcer.enforce']
@@ -151,6 +178,14 @@ def count_restated(ctx, per_name, prefix):
     if last:
         ctx.count(prefix + '_last_definer_restates_default_after_differing_layer')
     return {n for n, vs in per_name.items() if vs and vs[-1] < 0 and any(v >= 0 for v in vs[:-1])}
+
+
+class _NoCount:
+    """Stands in for ctx where a second ConfigOpts of the same layering is made (the layering is counted once)."""
+
+    @staticmethod
+    def count(*a, **k):
+        pass
 
 
 def make_conf(ctx, tree, case):
@@ -312,6 +347,100 @@ def count_ignored(ctx, case):
         ctx.count('histories_with_dot_file_appearing_or_disappearing')
 
 
+def _mkdirs(tree, rel_dir):
+    """Directories below the tree root, level by level (each one carries a logical mtime)."""
+    parts = [x for x in rel_dir.split('/') if x]
+    for k in range(1, len(parts) + 1):
+        sub = '/'.join(parts[:k])
+        if not os.path.lexists(tree.path(sub)):
+            tree.mkdir(sub)
+
+
+def write_linked(tree, path, spec, mapping, fmt):
+    """A policy directory entry `path` that is a symbolic link to a regular file kept elsewhere.  spec = {to: where the file
+    really is (outside the configured directories, or in a dot-named / plain sub-directory of one), abs: absolute link text,
+    dirlink: [link, directory] = the entry points THROUGH a link to the directory that holds the file (mounted ConfigMap:
+    a.yaml -> ..data/a.yaml, ..data -> ..version/), via: an intermediate link (entry -> link -> file)}."""
+    real = spec['to']
+    _mkdirs(tree, os.path.dirname(real))
+    tree.write(real, mapping, fmt)
+    aim = real
+    if spec.get('dirlink'):
+        lk, rd = spec['dirlink']
+        if not os.path.lexists(tree.path(lk)):
+            tree.symlink(lk, rd, absolute=bool(spec.get('abs')))
+        aim = lk + '/' + os.path.basename(real)
+    if spec.get('via'):
+        _mkdirs(tree, os.path.dirname(spec['via']))
+        tree.symlink(spec['via'], aim, absolute=not spec.get('abs'))
+        aim = spec['via']
+    tree.symlink(path, aim, absolute=bool(spec.get('abs')))
+
+
+def write_linkdir(tree, e, free):
+    """A policy directory entry that is a symbolic link to a DIRECTORY kept elsewhere; the files in that directory define the
+    free name only, with the entry's own role.  e = {path, to, abs, role, files: [[name, fmt], ...]}."""
+    _mkdirs(tree, e['to'])
+    for fn, fmt in e['files']:
+        tree.write(e['to'] + '/' + fn, {free: 'role:' + e['role']}, fmt)
+    tree.symlink(e['path'], e['to'], absolute=bool(e.get('abs')))
+
+
+def count_links(ctx, case):
+    """Coverage counters of stratum L, computed from the configuration that is about to run."""
+    links = case.get('links') or {}
+    applied = {lid: sp for lid, sp in links.items() if not os.path.basename(lid).startswith('.')}
+    if applied:
+        ctx.count('linked_entry_layerings')
+    if any(sp.get('abs') for sp in applied.values()):
+        ctx.count('layerings_entry_is_absolute_link_to_file')
+    if any(not sp.get('abs') for sp in applied.values()):
+        ctx.count('layerings_entry_is_relative_link_to_file')
+    if any(sp.get('dirlink') or sp.get('via') for sp in applied.values()):
+        ctx.count('layerings_entry_links_through_another_link')
+    if case.get('linkdirs'):
+        ctx.count('layerings_entry_is_link_to_directory')
+    # a name whose last definer (documented order, by the names of the ENTRIES) is a linked file while another layer defines it too
+    defs_of = {l[0]: l[2] for l in case['layers']}
+    doc = [lid for lid in _documented_order(case)]
+    for n in case['names']:
+        definers = [lid for lid in doc if n in defs_of[lid]]
+        if definers and definers[-1] in applied and (len(definers) > 1 or any(l[0] == 'default' and n in l[2] for l in case['layers'])):
+            ctx.count('layerings_linked_file_is_last_definer_of_a_shadowed_name')
+            break
+    for d in case['dirs']:
+        entries = [lid for lid in doc if lid != 'main' and os.path.dirname(lid) == d]
+        if entries != sorted(entries, key=lambda lid: os.path.basename((applied.get(lid) or {}).get('to', lid))):
+            ctx.count('layerings_order_by_link_name_differs_from_order_by_target_name')
+            break
+    if any(op['op'] == 'relink' for step in case.get('history') or () for op in step['ops']):
+        ctx.count('histories_with_link_switched_to_another_file')
+
+
+def count_process(ctx, case):
+    """Coverage counters of stratum P (several enforcers in one process over one world)."""
+    before = case['before']
+    existing = [d for d in case['dirs'] if d != 'dmissing']
+    main = any(l[0] == 'main' and l[2] for l in case['layers'])
+    ctx.count('worlds_with_several_enforcers')
+    if main and not existing:
+        ctx.count('worlds_later_enforcer_main_file_no_existing_directory')
+    if main and existing:
+        ctx.count('worlds_later_enforcer_main_file_and_directories')
+    if any(b['conf'] == 'same' for b in before):
+        ctx.count('worlds_enforcers_sharing_one_conf')
+    if any(b['conf'] != 'same' for b in before):
+        ctx.count('worlds_enforcers_with_confs_of_their_own')
+    if any(b['use'] == 'none' for b in before):
+        ctx.count('worlds_earlier_enforcer_idle_so_far')
+    if any(b['use'] != 'none' for b in before):
+        ctx.count('worlds_earlier_enforcer_has_loaded')
+    if len(before) >= 2:
+        ctx.count('worlds_three_enforcers')
+    if case.get('history'):
+        ctx.count('worlds_several_enforcers_then_history')
+
+
 def check_layering(ctx, case):
     """case: names, dirs (configured order), layers: list of [lid, relpath|None, {name: True}], fmts, write_order;
     optional: rewrite, history (list of steps {ops: [{op, lid, path, defs: {name: version}|None, fmt}], load}), cwd (decoy kind),
@@ -341,9 +470,26 @@ def _check_layering(ctx, case, tree):
         ign_roles = {e['role'] for e in ign}
         if ign:
             count_ignored(ctx, case)
+        links = case.get('links') or {}
+        linkdirs = case.get('linkdirs') or []
+        ld_by_id = {'ld:%d' % k: e for k, e in enumerate(linkdirs)}
+        ld_roles = {e['role'] for e in linkdirs}
+        free = case.get('free')
+
+        def open_question(n, r):
+            # the statement does not say whether a configured directory's entry that is a LINK to a directory counts as a
+            # sub-directory: the files below it (they define the free name only, with a role of their own) may be applied or not
+            return n == free and r in ld_roles
+
+        if links or linkdirs:
+            count_links(ctx, case)
         for lid in case['write_order']:
             if lid in ign_by_id:
                 write_ignored(tree, names, ign_by_id[lid])
+            elif lid in ld_by_id:
+                write_linkdir(tree, ld_by_id[lid], free)
+            elif lid in links:
+                write_linked(tree, paths[lid], links[lid], content[lid], case['fmts'].get(lid, 'json'))
             elif paths[lid]:
                 tree.write(paths[lid], content[lid], case['fmts'].get(lid, 'json'))
         # expected fold, in the documented order
@@ -375,6 +521,60 @@ def _check_layering(ctx, case, tree):
                     if decoy.lacking:
                         ctx.count('cwd_decoy_name_missing_in_config_dir')
         conf = make_conf(ctx, tree, case)
+        roles = sorted({lid_role(l[0]) for l in case['layers']} | {'SUB', 'nobody'} | ({'CWD'} if case.get('cwd') else set()) | ign_roles | ld_roles)
+        # enforcers built BEFORE the observed one, in the same process over the same world (the same ConfigOpts or one of their
+        # own made the same way); each registers the same defaults and loads / decides / stays idle as the case says
+        before = case.get('before') or []
+        earlier = []
+
+        def others_decide(phase, eff_now, roles_of, extra=None, who=None):
+            """Every earlier enforcer decides every name: the statement's layering holds for each enforcer of the process."""
+            for k, e in enumerate(earlier):
+                if who is not None and k != who:
+                    continue
+                for n in names:
+                    for r in roles_of(n):
+                        try:
+                            got = bool(e.enforce(n, {}, {'roles': [r]}))
+                        except Exception as ex:
+                            got = 'EXC:' + type(ex).__name__
+                        ctx.count('decisions_by_other_enforcers_of_the_process')
+                        if open_question(n, r) and not isinstance(got, str):
+                            if got:
+                                ctx.unconstrained('files_below_linked_directory_applied')
+                            continue
+                        if got != (eff_now.get(n) == r):
+                            first = k == 0 and phase == 'built'
+                            key = ('load-or-enforce-raises' if isinstance(got, str) else
+                                   'wrong-layer-wins' if first and n in eff_now else 'undefined-name-allowed' if first else
+                                   'effective-policy-differs-between-enforcers-of-one-process')
+                            detail = {'enforcer': k, 'of': len(earlier) + 1, 'when': phase, 'enforcers_before_the_observed_one': before,
+                                      'name': n, 'role': r, 'expected_layer': eff_now.get(n), 'observed': got,
+                                      'layers': {l[0]: sorted(l[2]) for l in case['layers']}}
+                            detail.update(extra or {})
+                            ctx.violation(key, case, detail)
+                            return True
+            return False
+
+        for k, b in enumerate(before):
+            e = policy.Enforcer(conf if b['conf'] == 'same' else make_conf(_NoCount, tree, case))
+            for l in case['layers']:
+                if l[0] == 'default':
+                    for n in l[2]:
+                        e.register_default(policy.RuleDefault(n, content['default'][n], scope_types=['project'] if case.get('scoped') else None))
+            earlier.append(e)
+            try:
+                if b['use'] == 'load':
+                    e.load_rules()
+                elif b['use'] == 'force':
+                    e.load_rules(True)
+            except Exception as ex:
+                ctx.violation('load-or-enforce-raises', case, {'enforcer': k, 'raised': type(ex).__name__ + ': ' + str(ex)[:200]})
+                return
+            if b['use'] == 'decide' and others_decide('built', eff, lambda n: roles, who=k):
+                return
+        if before:
+            count_process(ctx, case)
         enf = policy.Enforcer(conf)
         scoped = set()
         for lid, p, defs in case['layers']:
@@ -385,7 +585,6 @@ def _check_layering(ctx, case, tree):
                     if st:
                         scoped.add(n)
                     enf.register_default(policy.RuleDefault(n, content['default'][n], scope_types=st))
-        roles = sorted({lid_role(l[0]) for l in case['layers']} | {'SUB', 'nobody'} | ({'CWD'} if case.get('cwd') else set()) | ign_roles)
         shadow = any(sum(1 for l in case['layers'] if n in l[2] and not (l[1] and os.path.basename(l[1]).startswith('.'))) > 1
                      for n in names)
         ctx.case(case, nontrivial=shadow, stratum=case['s'])
@@ -418,6 +617,10 @@ def _check_layering(ctx, case, tree):
                                       {'name': n, 'role': r, 'winning_layer': eff.get(n), 'registered_scope_types': ['project'],
                                        'credentials': 'system-scoped', 'observed': sgot, 'expected': False})
                         return
+                if open_question(n, r) and not isinstance(got, str):
+                    if got:
+                        ctx.unconstrained('files_below_linked_directory_applied')
+                    continue
                 if got != want:
                     if isinstance(got, str):
                         key = 'load-or-enforce-raises'
@@ -472,8 +675,37 @@ def _check_layering(ctx, case, tree):
                         detail['ignored_entries_applied'] = [by_role[r2] for r2 in passing if r2 in by_role]
                         if detail['ignored_entries_applied'] and not isinstance(got, str) and r != 'CWD':
                             key = 'ignored-file-applied' if n in eff else 'undefined-name-allowed'
+                    if links and not isinstance(got, str) and r != 'CWD':
+                        # the decisions for this name as they would be if the linked entries were not there at all
+                        passing = []
+                        for r2 in roles:
+                            try:
+                                if enf.enforce(n, {}, {'roles': [r2]}) is True:
+                                    passing.append(r2)
+                            except Exception:
+                                pass
+                        unlinked = None
+                        for lid, p, defs in order:
+                            if lid not in links and n in defs:
+                                unlinked = role_of(lid, first_version(case, lid, n))
+                        detail['roles_that_pass'] = passing
+                        detail['linked_entries'] = {lid: sp['to'] for lid, sp in links.items()}
+                        detail['documented_order'] = [l[0] for l in order]
+                        if passing == ([unlinked] if unlinked else []) and unlinked != eff.get(n):
+                            key = 'linked-policy-file-left-out-of-the-layering'
+                    if earlier and not isinstance(got, str) and r != 'CWD' and key in ('wrong-layer-wins', 'undefined-name-allowed'):
+                        # the same question to the first enforcer of the process (same world, same registered defaults)
+                        detail['enforcers_before_the_observed_one'] = before
+                        try:
+                            detail['observed_by_first_enforcer'] = bool(earlier[0].enforce(n, {}, {'roles': [r]}))
+                            if detail['observed_by_first_enforcer'] == want:
+                                key = 'effective-policy-differs-between-enforcers-of-one-process'
+                        except Exception as e:
+                            detail['observed_by_first_enforcer'] = 'EXC:' + type(e).__name__
                     ctx.violation(key, case, detail)
                     return
+        if others_decide('after the observed enforcer decided', eff, lambda n: roles):
+            return
         if case.get('rewrite') and not case.get('_second_pass'):
             # an operator re-saves one policy.d file (same content, newer mtime): the long-lived enforcer reloads and must
             # arrive at the very same effective policy
@@ -488,10 +720,14 @@ def _check_layering(ctx, case, tree):
                             got = bool(enf.enforce(n, {}, {'roles': [r]}))
                         except Exception as e:
                             got = 'EXC:' + type(e).__name__
+                        if open_question(n, r) and not isinstance(got, str):
+                            continue
                         if got != (eff.get(n) == r):
                             ctx.violation('layering-wrong-after-reload', case,
                                           {'rewritten': v[1], 'name': n, 'role': r, 'expected_layer': eff.get(n), 'observed': got})
                             return
+                if others_decide('after a policy.d file was re-saved', eff, lambda n: roles, {'rewritten': v[1]}):
+                    return
         if case.get('history'):
             # the operator keeps editing the files under the living enforcer; after every step (file operations, then a load)
             # each name must be decided by the documented fold of the files AS THEY ARE NOW
@@ -499,7 +735,7 @@ def _check_layering(ctx, case, tree):
             pth = {l[0]: l[1] for l in case['layers'] if l[1]}
             # a check string can only stem from content that existed at some time: per name, the roles of every (layer, version)
             # that ever defined it, plus the ignored sub-directory, the decoy and a role nobody uses
-            cand = {n: {'SUB', 'nobody'} | ({'CWD'} if case.get('cwd') else set()) | ign_roles for n in names}
+            cand = {n: {'SUB', 'nobody'} | ({'CWD'} if case.get('cwd') else set()) | ign_roles | ld_roles for n in names}
             for lid, defs in cur.items():
                 for n, v in defs.items():
                     cand[n].add(role_of(lid, v))
@@ -517,7 +753,15 @@ def _check_layering(ctx, case, tree):
                         cur.pop(op['lid'], None)
                         pth.pop(op['lid'], None)
                     else:
-                        tree.write(op['path'], {n: text_of(op['lid'], v) for n, v in op['defs'].items()}, op['fmt'])
+                        if op['op'] == 'relink':
+                            # the entry is switched to another file (a new version of a mounted ConfigMap, a link re-pointed
+                            # by the operator): new target written, old link removed, new link made
+                            _mkdirs(tree, os.path.dirname(op['to']))
+                            tree.write(op['to'], {n: text_of(op['lid'], v) for n, v in op['defs'].items()}, op['fmt'])
+                            tree.delete(op['path'])
+                            tree.symlink(op['path'], op['to'], absolute=bool(op.get('abs')))
+                        else:
+                            tree.write(op['path'], {n: text_of(op['lid'], v) for n, v in op['defs'].items()}, op['fmt'])
                         dropped = dropped or bool(set(cur.get(op['lid'], ())) - set(op['defs']))
                         if op['lid'] == 'main' and cur.get('main') == op['defs']:
                             ctx.count('history_steps_main_resaved_identical')
@@ -547,6 +791,8 @@ def _check_layering(ctx, case, tree):
                         except Exception as e:
                             got = 'EXC:' + type(e).__name__
                         ctx.count('history_decisions')
+                        if open_question(n, r) and not isinstance(got, str):
+                            continue
                         if got != (eff.get(n) == r):
                             key = ('relative-name-taken-from-working-directory' if r == 'CWD' and got is True
                                    else 'layering-wrong-after-reload')
@@ -554,6 +800,9 @@ def _check_layering(ctx, case, tree):
                                           {'history_step': k, 'step': step, 'name': n, 'role': r, 'expected_layer': eff.get(n),
                                            'observed': got, 'files_now': {lid: cur[lid] for lid in sorted(cur)}})
                             return
+                if others_decide('after history step %d' % k, eff, lambda n: sorted(cand[n]),
+                                 {'history_step': k, 'step': step, 'files_now': {lid: cur[lid] for lid in sorted(cur)}}):
+                    return
     finally:
         if decoy is not None:
             decoy.__exit__()
@@ -865,6 +1114,191 @@ def exhaustive_restate_layerings():
                    route=ROUTES[i % 3], relative=bool((i // 3) % 2), cfgpos=i % 4)
 
 
+N_PROCESS = {'quick': 240, 'thorough': 9000}
+N_LINKS = {'quick': 240, 'thorough': 9000}
+DIR_MODES = ['none', 'missing', 'empty', 'files', 'links', 'files']
+USES = ['decide', 'load', 'none', 'force']
+LINKDIR_NAMES = ['00-first.d', 'c.yaml', 'conf.d', 'zz.d', 'lnk', '.dotlnk']
+LINK_PLACES = ['store', 'dotsub', 'dirlink', 'sub']
+LINK_FILESETS = dict(FILESETS, d3=['m.yaml', 'k.yaml', '-a.yaml'])
+
+
+def gen_before(rnd, i):
+    """The enforcers built before the observed one (one or two): each on the SAME ConfigOpts or on one of its own naming the same
+    paths, and deciding every name / loading / loading with force / staying idle before the next one is built."""
+    out = []
+    for k in range(1 + (i // 2) % 2):
+        out.append({'conf': 'same' if (i + k) % 2 == 0 else 'own', 'use': USES[(i // 4 + k) % 4] if k == 0 else rnd.choice(USES)})
+    return out
+
+
+def gen_dir_layers(rnd, dirs, names, filesets, p=0.5):
+    layers = []
+    for d in dirs:
+        for fn in filesets.get(d, ()):
+            if rnd.random() < p:
+                layers.append([d + '/' + fn, d + '/' + fn, {n: True for n in names[:3] if rnd.random() < 0.5}])
+    return layers
+
+
+def add_links(rnd, case, i, p=0.45):
+    """Some directory entries of the case become symbolic links to files kept elsewhere (the ENTRY's name stays what it was: it
+    decides the place in the order; the target's name is drawn so that it would sort differently), and up to two entries that are
+    links to directories are added (their files define the free name only)."""
+    real = [d for d in case['dirs'] if d != 'dmissing']
+    cands = sorted(l[0] for l in case['layers'] if l[1] and l[0] != 'main')
+    chosen = [lid for lid in cands if rnd.random() < p]
+    plain = [lid for lid in cands if not os.path.basename(lid).startswith('.')]
+    if plain and not set(plain) & set(chosen):
+        chosen.append(rnd.choice(plain))
+    links = {}
+    for j, lid in enumerate(sorted(chosen)):
+        d = os.path.dirname(lid)
+        place = LINK_PLACES[(i + j) % len(LINK_PLACES)]
+        tname = rnd.choice(['00', 'M', 'a', 'k', 'zz']) + '-t%d' % j + rnd.choice(['.yaml', '.json', '.txt', ''])
+        sp = {'abs': bool((i // 4 + j) % 2)}
+        if place == 'store':
+            sp['to'] = 'store/' + tname
+        elif place == 'dotsub':
+            sp['to'] = d + '/..ver1/' + tname
+        elif place == 'dirlink':
+            sp['to'] = d + '/..ver2/' + tname
+            sp['dirlink'] = [d + '/..data', d + '/..ver2']
+        else:
+            sp['to'] = d + '/tgt/' + tname
+        if rnd.random() < 0.2:
+            sp['via'] = 'store/hop%d' % j
+        links[lid] = sp
+    linkdirs = []
+    for j in range(rnd.choice([0, 1, 1, 2]) if real else 0):
+        path = rnd.choice(real) + '/' + LINKDIR_NAMES[(i + 2 * j) % len(LINKDIR_NAMES)]
+        if any(e['path'] == path for e in linkdirs):
+            continue
+        linkdirs.append({'path': path, 'to': 'store/dir%d' % j, 'abs': rnd.random() < 0.5, 'role': 'LD%d' % j,
+                         'files': [[fn, 'json' if fn.endswith('.json') else rnd.choice(['json', 'yaml', 'yaml-lines'])]
+                                   for fn in rnd.sample(['00.yaml', 'a.yaml', 'zz.json'], rnd.choice([1, 2]))]})
+    case['links'] = links
+    if linkdirs:
+        case['linkdirs'] = linkdirs
+        case['free'] = case['names'][-1]
+        order = case['write_order'] + ['ld:%d' % k for k in range(len(linkdirs))]
+        rnd.shuffle(order)
+        case['write_order'] = order
+
+
+def add_relinks(rnd, case, steps):
+    """History steps get operations that switch a linked entry to another file with new content."""
+    alive = set(case.get('links') or ())
+    ver = 500
+    for sk, step in enumerate(steps):
+        for op in step['ops']:
+            if op['op'] == 'delete':
+                alive.discard(op['lid'])
+        pool = sorted(alive - {op['lid'] for op in step['ops']})
+        if pool and rnd.random() < 0.6:
+            lid = rnd.choice(pool)
+            ver += 1
+            defs = {n: ver for n in case['names'][:3] if rnd.random() < 0.6} or {case['names'][0]: ver}
+            step['ops'].append({'op': 'relink', 'lid': lid, 'path': lid, 'defs': defs,
+                                'fmt': 'json' if lid.endswith('.json') else rnd.choice(['json', 'yaml', 'yaml-lines']),
+                                'to': 'store/%s-r%d.yaml' % (rnd.choice(['00', 'zz']), sk), 'abs': rnd.random() < 0.5})
+    return [s for s in steps if s['ops']]
+
+
+def gen_main_history(rnd, case):
+    """A history for a world without an existing policy directory: the main file (if there is one) is re-saved unchanged, changed,
+    or loses names; 2-3 steps, each followed by a load."""
+    main = [l for l in case['layers'] if l[0] == 'main']
+    if not main:
+        return []
+    cur = {n: 0 for n in main[0][2]}
+    steps, ver = [], 0
+    for _ in range(rnd.choice([2, 2, 3])):
+        kind = rnd.choice(['resave-main', 'change', 'change', 'drop'])
+        defs = dict(cur)
+        if kind == 'drop' and cur:
+            for n in rnd.sample(sorted(cur), rnd.randint(1, len(cur))):
+                del defs[n]
+        elif kind == 'change':
+            ver += 1
+            defs = {n: (cur[n] if n in cur and rnd.random() < 0.4 else ver) for n in case['names'][:3] if rnd.random() < 0.6}
+            if defs == cur:
+                defs[case['names'][0]] = ver
+        steps.append({'ops': [{'op': kind, 'lid': 'main', 'path': 'policy.yaml', 'defs': defs, 'fmt': case['fmts'].get('main', 'json')}],
+                      'load': rnd.choice(['implicit', 'implicit', 'explicit', 'force'])})
+        cur = defs
+    return steps
+
+
+def gen_process_world(rnd, i):
+    """Stratum P.  One world (registered defaults, main file, policy directories: none configured / only a missing one / existing
+    but empty / holding files / holding files and links - enumerated by the index), two or three enforcers built one after the
+    other in the process over it."""
+    names = ['n1', 'n2', 'n3', 'n4']
+    mode = DIR_MODES[i % len(DIR_MODES)]
+    layers = []
+    if rnd.random() < 0.85:
+        layers.append(['default', None, {n: True for n in names[:3] if rnd.random() < 0.6}])
+    if rnd.random() < 0.9:
+        layers.append(['main', 'policy.yaml', {n: True for n in names[:3] if rnd.random() < 0.65}])
+    if mode == 'none':
+        dirs = []
+    elif mode == 'missing':
+        dirs = ['dmissing']
+    elif mode == 'empty':
+        dirs = rnd.choice([['d1'], ['d1', 'dmissing'], ['dmissing', 'd2'], ['d1', 'd2']])
+    else:
+        dirs = list(DIRS)
+        if rnd.random() < 0.3:
+            rnd.shuffle(dirs)
+        layers += gen_dir_layers(rnd, dirs, names, LINK_FILESETS, 0.45)
+    fmts = {l[0]: ('json' if l[1].endswith('.json') else rnd.choice(['json', 'yaml', 'yaml-lines'])) for l in layers if l[1]}
+    order = [l[0] for l in layers]
+    rnd.shuffle(order)
+    case = dict(s='P', names=names, dirs=dirs, layers=layers, fmts=fmts, write_order=order, scoped=rnd.random() < 0.3,
+                rewrite=rnd.choice([0, 0, 1, 2]), relative=rnd.random() < 0.3, route=ROUTES[(i // len(DIR_MODES)) % 3],
+                cfgpos=rnd.randrange(4), before=gen_before(rnd, i))
+    if mode == 'links':
+        add_links(rnd, case, i)
+    if rnd.random() < 0.3:
+        steps = gen_history(rnd, case) if mode not in ('none', 'missing') else gen_main_history(rnd, case)
+        if case.get('links'):
+            steps = add_relinks(rnd, case, steps)
+        if steps:
+            case['history'] = steps
+    return case
+
+
+def gen_link_world(rnd, i):
+    """Stratum L.  The layerings of Y in which some policy directory entries are symbolic links to files kept elsewhere (relative /
+    absolute link text, target outside the configured directories / in a dot-named or plain sub-directory of one / reached through
+    a linked directory or a second link - enumerated by the index), plus entries that are links to directories."""
+    names = ['n1', 'n2', 'n3', 'n4']
+    layers = [[lid, p, {n: True for n in names[:3] if rnd.random() < 0.5}]
+              for lid, p in (('default', None), ('main', 'policy.yaml')) if rnd.random() < 0.7]
+    dirs = list(DIRS)
+    if rnd.random() < 0.3:
+        rnd.shuffle(dirs)
+    if rnd.random() < 0.3:
+        dirs.remove('dmissing')
+    layers += gen_dir_layers(rnd, dirs, names, LINK_FILESETS, 0.55)
+    if not any(l[1] and l[0] != 'main' and not os.path.basename(l[1]).startswith('.') for l in layers):
+        layers.append(['d1/a.yaml', 'd1/a.yaml', {'n1': True}])
+    fmts = {l[0]: ('json' if l[1].endswith('.json') else rnd.choice(['json', 'yaml', 'yaml-lines'])) for l in layers if l[1]}
+    order = [l[0] for l in layers]
+    rnd.shuffle(order)
+    case = dict(s='L', names=names, dirs=dirs, layers=layers, fmts=fmts, write_order=order, scoped=rnd.random() < 0.3,
+                rewrite=rnd.choice([0, 0, 1, 2, 3]), relative=rnd.random() < 0.3, route=ROUTES[(i // 8) % 3], cfgpos=rnd.randrange(4))
+    add_links(rnd, case, i)
+    if rnd.random() < 0.3:
+        case['before'] = gen_before(rnd, i)
+    if rnd.random() < 0.35:
+        steps = add_relinks(rnd, case, gen_history(rnd, case) or [{'ops': [], 'load': rnd.choice(['implicit', 'explicit', 'force'])}])
+        if steps:
+            case['history'] = steps
+    return case
+
+
 def exhaustive_layerings():
     slots = [('default', None), ('main', 'policy.yaml'), ('d1/a.yaml', 'd1/a.yaml'), ('d1/b.yaml', 'd1/b.yaml'), ('d2/a.yaml', 'd2/a.yaml')]
     i = 0
@@ -981,6 +1415,26 @@ def check_selection(ctx, case):
 
 
 def run(ctx):
+    # P / L: several enforcers of one process over one world; policy directory entries that are symbolic links (own random source
+    # per index; a bounded share of the wall budget, early, so that a cut budget does not lose them)
+    ctx.reserve(0.3)
+    for i in range(max(N_PROCESS[ctx.tier], N_LINKS[ctx.tier])):
+        if not ctx.mine(i):
+            continue
+        if ctx.expired():
+            break
+        for s, n, gen in (('P', N_PROCESS, gen_process_world), ('L', N_LINKS, gen_link_world)):
+            if i < n[ctx.tier]:
+                case = gen(ctx.sub_rnd(s, ctx.tier, i), i)
+                check_layering(ctx, case)
+                if i % 100 < ctx.nshards:
+                    ctx.sample({'layers': {l[0]: sorted(l[2]) for l in case['layers']}, 'dirs': case['dirs'],
+                                'enforcers_before_the_observed_one': case.get('before'), 'linked_entries': case.get('links'),
+                                'links_to_directories': [e['path'] for e in case.get('linkdirs') or ()], 'route': case['route'],
+                                'written_in_order': case['write_order']}, s)
+    ctx.release()
+    ctx.stratum('P', exhaustive=False)
+    ctx.stratum('L', exhaustive=False)
     # Z: exhaustive file-selection table
     idx = 0
     done = True
